@@ -518,7 +518,7 @@ def run(tier: str) -> int:
              chains_wl=[1100, 1100], chains_rl=[120], n_sessions=400, mc_every=4)
     else:
         body(chk, mc_nodes=3, n_random=8000, deep=4, chains_w=[500, 2000], chains_r=[150, 300],
-             chains_wl=[2000, 2000], chains_rl=[300], n_sessions=3000, mc_every=1)
+             chains_wl=[2000, 2000], chains_rl=[300], n_sessions=1500, mc_every=1)
     chk.cov["exhaustive"] = True
     chk.cov["rule"] = ("TLC enumerates every page with <= N nodes over the 'elems' alphabet (elements, loops, components with "
                        "0..n roots, text-only, component-as-root, roots from fills/defaults/loops) x2 modes; random programs with "
